@@ -2,8 +2,9 @@
 # Builds the instrumented whole-program simulator binary /verif/build/sv/simsouffle from $VERIF_REPO (default /repo):
 # libsouffle compiled with the tsan instrumentation pass + -fopenmp, linked against simrt instead of libtsan/libgomp.
 set -e
+V="$(cd "$(dirname "$0")/.." && pwd)"   # root of the verif tree this script belongs to (may be a snapshot)
 REPO=${VERIF_REPO:-/repo}
-B=${VERIF_BUILD:-/verif/build}/sv
+B=${VERIF_BUILD:-$V/build}/sv
 mkdir -p $B
 exec 9>$B/.lock; flock 9
 FLAGS="-O1 -fsanitize=thread --param tsan-instrument-func-entry-exit=0 --param tsan-distinguish-volatile=1 -DSOUFFLE_VERIF -w"
@@ -15,8 +16,8 @@ if [ ! -f $B/build.ninja ] || [ "$(cat $B/.repo 2>/dev/null)" != "$REPO" ]; then
 fi
 ninja -C $B libsouffle > $B/ninja.log 2>&1 || { tail -40 $B/ninja.log; exit 1; }
 SIMO=$B/simrt.o
-if [ ! -f $SIMO ] || [ /verif/simrt/simrt.cpp -nt $SIMO ] || [ /verif/simrt/simrt.h -nt $SIMO ]; then
-  g++ -O2 -g -std=c++17 -c /verif/simrt/simrt.cpp -o $SIMO.tmp.$$ && mv $SIMO.tmp.$$ $SIMO
+if [ ! -f $SIMO ] || [ $V/simrt/simrt.cpp -nt $SIMO ] || [ $V/simrt/simrt.h -nt $SIMO ]; then
+  g++ -O2 -g -std=c++17 -c $V/simrt/simrt.cpp -o $SIMO.tmp.$$ && mv $SIMO.tmp.$$ $SIMO
 fi
 # main() of souffle, same flags
 INC="-I$REPO/src -I$REPO/src/include -I$B/src -I$B/src/include"
